@@ -22,7 +22,7 @@ func init() {
 		Word32:   true,
 		DebugTag: true,
 		Level:    "exploration",
-		Rule: "E1 complete enumeration of the whole domain: every height h in [0,30] × every index in [0, 2^(h+1)-1) — 2^32-33 pairs. Oracle: pre-order successor on (prefix,length) walked in index order (shards start from the node found by descending by subtree sizes); the path word is assembled by hand. " +
+		Rule: "E1 complete enumeration of the whole domain: every height h in [0,30] × every index in [0, 2^(h+1)-1) — 2^32-33 pairs. Oracle: pre-order successor on (prefix,length) walked in index order (shards start from the node found by descending by subtree sizes); the path word is assembled by hand. Before that, in ONE goroutine and with the heights INNERMOST: every index below 2048 at every height that has it, ascending then descending (consecutive calls differ in the height only). " +
 			"Both directions are judged against the walk: IndexToPath(h,i) == node_i and PathToIndex(2^(h+1)-1, node_i) == i. A case is one (h,index) pair; non-trivial when h > 4 (not answered from the lookup table alone) and 0 < index.",
 		Assumptions: []string{"the successor function is the definition of pre-order on the full tree"},
 		Run:         c05Run,
@@ -48,7 +48,48 @@ func p2iFast(mask int32, path uint64) (r int32, p bool) {
 	return bmtree.PathToIndex(mask, path), false
 }
 
+// c05Heights lists, ascending then descending, the heights whose full tree has the index.
+func c05Heights(index int64) []int {
+	var hs []int
+	for h := 0; h <= 30; h++ {
+		if index < int64(2)<<uint(h)-1 {
+			hs = append(hs, h)
+		}
+	}
+	for i := len(hs) - 2; i >= 0; i-- {
+		hs = append(hs, hs[i])
+	}
+	return hs
+}
+
+// c05Transposed: ONE goroutine, heights INNERMOST: for every index below 2048, IndexToPath and the way back
+// at every height that has the index, ascending then descending. Consecutive calls differ in the height only;
+// anything carried from one call to the next under a key that leaves the height out shows here, on every run
+// (the main enumeration runs its shards side by side and would meet such a pair by chance only).
+func c05Transposed(c *mc.Ctx) {
+	var evals int64
+	for index := int64(0); index < 2048; index++ {
+		for _, h := range c05Heights(index) {
+			prefix, l := ref.NodeAt(h, index)
+			want := ref.PathWord(prefix, l, h)
+			got, p := i2p(int32(h), int32(index))
+			if p || got != want {
+				c.Fail(1<<60|index<<8|int64(h), "transposed", "IndexToPath/heights-innermost", c05Case{int32(h), int32(index)}, fmt.Sprintf("%#x panic=%v", got, p), fmt.Sprintf("%#x panic=false", want))
+			}
+			back, p2 := p2iFast(int32(int64(2)<<uint(h)-1), want)
+			if p2 || int64(back) != index {
+				c.Fail(1<<60|index<<8|int64(h), "transposed", "PathToIndex(full)/heights-innermost", c05Case{int32(h), int32(index)}, fmt.Sprintf("back=%d panic=%v", back, p2), fmt.Sprintf("back=%d panic=false", index))
+			}
+			evals++
+		}
+	}
+	c.Count(evals, evals)
+	c.Expect(evals)
+	c.Add("pairs_with_heights_innermost", evals)
+}
+
 func c05Run(c *mc.Ctx) {
+	c05Transposed(c) // first, alone
 	const chunk = int64(1) << 20
 	type shard struct {
 		h      int
@@ -122,6 +163,22 @@ func c05Run(c *mc.Ctx) {
 }
 
 func c05Judge(kind string, cs c05Case) (got, want string) {
+	if kind == "transposed" {
+		// the case is the sweep over the heights for this index, up to this height
+		var g, w string
+		for _, h := range c05Heights(int64(cs.Index)) {
+			prefix, l := ref.NodeAt(h, int64(cs.Index))
+			want := ref.PathWord(prefix, l, h)
+			got, p := i2p(int32(h), cs.Index)
+			back, p2 := p2iFast(int32(int64(2)<<uint(h)-1), want)
+			g = fmt.Sprintf("%#x panic=%v back=%d panic=%v", got, p, back, p2)
+			w = fmt.Sprintf("%#x panic=false back=%d panic=false", want, cs.Index)
+			if h == int(cs.Height) && g != w {
+				break
+			}
+		}
+		return g, w
+	}
 	h := int(cs.Height)
 	// walk from the root for small indexes (pure successor), else descend
 	var prefix uint64
